@@ -155,6 +155,8 @@ fn build_app(cors: &str) -> (App<HState>, Arc<HState>) {
     let cors_cfg = match cors {
         "wildcard" => Cors::wildcard(),
         "list" => Cors::new().with_origin("https://a.example").with_origin("https://b.example").with_method(Method::Get).with_method(Method::Post).with_header("X-Custom"),
+        // entries that are substrings of earlier entries (a de-duplication by substring would drop them)
+        "nested" => Cors::new().with_origin("http://localhost:3000").with_origin("http://localhost").with_method(Method::Get).with_method(Method::Post).with_method(Method::Put).with_header("Accept-Language").with_header("Accept").with_header("X-Auth-Token").with_header("X-Auth"),
         _ => Cors::new(),
     };
     let app = app
@@ -393,7 +395,7 @@ impl Prop for C01T {
         let clients: Vec<Client> = (0..nclients).map(|_| gen_client(&mut rng, tier, None)).collect();
         let mut sim = SimParams::draw(&mut rng, true);
         sim.rx_capacity = None;
-        let scn = Scn { sim, threads: 1, timeout_ms: None, cors: ["wildcard", "list", "none"][rng.usize_below(3)].to_string(), clients };
+        let scn = Scn { sim, threads: 1, timeout_ms: None, cors: ["wildcard", "list", "none", "nested"][rng.usize_below(4)].to_string(), clients };
         serde_json::to_value(scn).unwrap()
     }
     fn execute(&self, scenario: &Value) -> RunResult {
